@@ -1,10 +1,11 @@
 (* C04 protocol model WITH VALUES (LazyMap.v, repaired code): the history of every complete execution of
-   Store / Load / LoadAndDelete, for ALL programs and ALL schedules, is linearizable with respect to the map
+   Store / Load / LoadAndDelete / LoadOrStore / LoadOrStoreLazy / Delete, for ALL programs and ALL schedules, is
+   linearizable with respect to the map
    specification (Spec.fmap_step), in the sense of Common/Hist.v; the final specification state is the abstract
    map of the final heap. *)
 From VF Require Import Common.Base Common.Hist C04.Spec C04.LazyMap C04.ProofsLazyMap C04.LzmReach C04.LzmLock C04.LzmAbs
   C04.LzmHist C04.LzmTrace C04.LinPoints C04.LzmLinz.
-From VF Require C04.Proofs.
+From VF Require C04.Proofs C04.Check.
 From Coq Require Import Nnat.
 Local Open Scope Z_scope.
 
@@ -110,40 +111,64 @@ Proof.
   destruct (points_linearizable fmap mop mres entry fmap_step e_op e_pt Rel (g_log (GR N)) N) with (s0 := @nil (Z * Z))
     as (S' & LT & RS').
   - (* inside the interval *)
-    intros e He. destruct (TLG e He) as (a & b & o & v & ok & Eo & L & X). unfold inside. rewrite Eo. cbn [inv resp].
+    intros e He. destruct (TLG e He) as (a & b & o & calls & v & ok & Eo & CK & L & X). unfold inside. rewrite Eo. cbn [inv resp].
     rewrite !Nat2N.id. destruct X as [(m & Ep & Lm & _)|(m & t & w & Ep & Lm & _)]; rewrite Ep; lia.
-  - intros e He. destruct (TLG e He) as (a & b & o & v & ok & Eo & L & X).
+  - intros e He. destruct (TLG e He) as (a & b & o & calls & v & ok & Eo & CK & L & X).
     destruct X as [(m & Ep & Lm & _)|(m & t & w & Ep & Lm & _)]; rewrite Ep; lia.
   - (* observers *)
-    intros e m He Ept. destruct (TLG e He) as (a & b & o & v & ok & Eo & L & X).
+    intros e m He Ept. destruct (TLG e He) as (a & b & o & calls & v & ok & Eo & CK & L & X).
     destruct X as [(m1 & Ep & Lm & F)|(m1 & t & w & Ep & _)]; [|lia]. assert (m1 = m) by lia. subst m1.
     intros S RS. rewrite Eo. cbn [call ret].
-    destruct o as [k v0|k|k]; cbn [obsfact] in F; [contradiction| |]; cbn [call_of ret_of fmap_step].
+    destruct o as [k v0|k|k|k v0|k v0|k]; cbn [obsfact] in F; [contradiction| | | | |]; cbn [call_of ret_of fmap_step calls_ok] in *.
     + destruct ok.
       * apply RS in F. now rewrite F.
       * destruct F as [-> A]. now rewrite (rel_absent S m k RS A).
     + destruct F as (-> & -> & A). now rewrite (rel_absent S m k RS A).
+    + destruct F as (-> & F). apply RS in F. now rewrite F.
+    + destruct F as (-> & F). apply RS in F. rewrite F. now subst calls.
+    + destruct F as (-> & A). now rewrite (rel_absent S m k RS A).
   - (* mutators *)
     intros m Lm. destruct (in_dec Nat.eq_dec m (g_chg (GR N))) as [Hin|Hout].
     + right. assert (Hm : In m (flat_map mpt (g_log (GR N)))) by (eapply Permutation_in; [symmetry; exact TP|exact Hin]).
       apply in_flat_map in Hm as (e & He & Me). apply mpt_in in Me. exists e.
       split; [now apply block_unique|].
-      destruct (TLG e He) as (a & b & o & v & ok & Eo & L & X).
+      destruct (TLG e He) as (a & b & o & calls & v & ok & Eo & CK & L & X).
       destruct X as [(m1 & Ep & _)|(m1 & t & w & Ep & Lm1 & LS & MR)]; [lia|]. assert (m1 = m) by lia. subst m1.
       destruct LS as (Lms & Et & LS). intros S RS. rewrite Eo. cbn [call ret].
       assert (SS : ST (Datatypes.S m) = step true (ST m) t) by (rewrite <- Et; now apply st_S).
       pose proof (st_inv progs sched m) as J1. pose proof (st_invR progs sched m) as JR. pose proof (st_inv3 progs sched m) as J3.
-      destruct o as [k v0|k|k]; [| contradiction |]; cbn [call_of ret_of fmap_step].
+      assert (DEL : forall k pred x, nth_error (ths (ST m)) t <> None -> pc_of (ST m) t = RMark k pred x ->
+                mkd (hp (ST m)) x = false ->
+                exists y, fm_get k S = Some y /\ y = vl (hp (ST m)) x /\ Rel (fm_del k S) (Datatypes.S m)).
+      { intros k pred x _ Ep' Mx. unfold pc_of in Ep'.
+        destruct (nth_error (ths (ST m)) t) as [th|] eqn:E; [|discriminate].
+        destruct (mark_effect (ST m) J1 JR J3 t th k pred x E Ep' Mx) as (A1 & _ & _ & A2).
+        apply RS in A1. eexists. split; [exact A1|split; [reflexivity|]]. apply rel_del; [exact RS|]. now rewrite SS. }
+      assert (INS : forall k v0 lz n0 pred nn, pc_of (ST m) t = OFull k v0 lz n0 pred nn ->
+                fm_get k S = None /\ Rel (fm_put k v0 S) (Datatypes.S m)).
+      { intros k v0 lz n0 pred nn Ep'. unfold pc_of in Ep'.
+        destruct (nth_error (ths (ST m)) t) as [th|] eqn:E; [|discriminate].
+        destruct (ofull_effect (ST m) J1 JR J3 t th k v0 lz n0 pred nn E Ep') as (A1 & A2).
+        split; [exact (rel_absent S m k RS A1)|]. apply rel_put; [exact RS|]. now rewrite SS. }
+      assert (NN : forall p, pc_of (ST m) t = p -> p <> Idle -> nth_error (ths (ST m)) t <> None).
+      { intros p Ep' Np X. unfold pc_of in Ep'. rewrite X in Ep'. congruence. }
+      destruct o as [k v0|k|k|k v0|k v0|k]; [| contradiction | | | |]; cbn [call_of ret_of fmap_step calls_ok mutres] in *.
       * exists (fm_put k v0 S). split; [reflexivity|]. apply rel_put; [exact RS|]. rewrite SS.
         destruct LS as [(pred & nn & Ep')|(c & Ep')]; unfold pc_of in Ep';
           destruct (nth_error (ths (ST m)) t) as [th|] eqn:E; try discriminate.
         -- exact (proj2 (full_effect (ST m) J1 JR J3 t th k v0 pred nn E Ep')).
         -- exact (write_effect (ST m) J1 JR J3 t th k v0 c E Ep').
       * destruct LS as (pred & x & Ep' & Mx & Ew). destruct MR as (-> & x0 & Ew0 & ->).
-        rewrite Ew in Ew0. inversion Ew0; subst x0. unfold pc_of in Ep'.
-        destruct (nth_error (ths (ST m)) t) as [th|] eqn:E; [|discriminate].
-        destruct (mark_effect (ST m) J1 JR J3 t th k pred x E Ep' Mx) as (A1 & _ & _ & A2).
-        apply RS in A1. rewrite A1. exists (fm_del k S). split; [reflexivity|]. apply rel_del; [exact RS|]. now rewrite SS.
+        rewrite Ew in Ew0. inversion Ew0; subst x0.
+        destruct (DEL k pred x (NN _ Ep' ltac:(discriminate)) Ep' Mx) as (y & A1 & -> & A2).
+        rewrite A1. exists (fm_del k S). split; [reflexivity|exact A2].
+      * destruct LS as (n0 & pred & nn & Ep'). destruct MR as (-> & ->).
+        destruct (INS _ _ _ _ _ _ Ep') as [A1 A2]. rewrite A1. exists (fm_put k v0 S). split; [reflexivity|exact A2].
+      * destruct LS as (n0 & pred & nn & Ep'). destruct MR as (-> & ->). subst calls.
+        destruct (INS _ _ _ _ _ _ Ep') as [A1 A2]. rewrite A1. exists (fm_put k v0 S). split; [reflexivity|exact A2].
+      * destruct LS as (pred & x & Ep' & Mx & Ew). subst ok.
+        destruct (DEL k pred x (NN _ Ep' ltac:(discriminate)) Ep' Mx) as (y & A1 & _ & A2).
+        rewrite A1. exists (fm_del k S). split; [reflexivity|exact A2].
     + left. split.
       * apply block_none. intros Hm. apply Hout. eapply Permutation_in; [exact TP|exact Hm].
       * intros S RS k v. rewrite (TCF m Lm Hout). apply RS.
@@ -223,6 +248,52 @@ Proof.
   apply lazymap_linearizable. vm_compute. reflexivity.
 Qed.
 
+(* the lazy constructor runs exactly once in a LoadOrStoreLazy that stores and never in one that loads
+   (directly from the linearization points; the execution need not even be complete) *)
+Theorem lazymap_lazy_once_any progs sched :
+  forall o, In o (history true progs sched) -> forall k v h, Hist.call o = Spec.LoadOrStoreLazy k v h ->
+    exists x loaded, Hist.ret o = Spec.RLazy x loaded (if loaded then 0 else 1)%nat.
+Proof.
+  intros o Hin k v h Ec. rewrite <- grun_history in Hin. apply in_map_iff in Hin as (e & <- & He).
+  destruct (lazymap_points progs sched e He) as (a & b & o' & calls & x & ok & Eo & CK & _).
+  rewrite Eo in *. cbn [call ret] in *. destruct o'; cbn [call_of] in Ec; try discriminate.
+  cbn [ret_of calls_ok] in *. exists x, ok. now subst calls.
+Qed.
+
+Theorem lazymap_lazy_once progs sched : quiescent (run true progs sched) = true ->
+  forall o, In o (history true progs sched) -> forall k v h, Hist.call o = Spec.LoadOrStoreLazy k v h ->
+    exists x loaded, Hist.ret o = Spec.RLazy x loaded (if loaded then 0 else 1)%nat.
+Proof. intros _. apply lazymap_lazy_once_any. Qed.
+
+(* two racing LoadOrStoreLazy on key 1 (thread 0 has found the gap when thread 1 inserts; its validation fails, it
+   searches again, finds the node and loads), then LoadOrStore / Delete / Load on keys 1 and 2 *)
+Definition ex2_progs : list (list opk) :=
+  [[MLoadOrStoreLazy 1 10]; [MLoadOrStoreLazy 1 20]; [MLoadOrStore 1 7; MLoadOrStore 2 5]; [MDelete 1; MDelete 1];
+   [MLoad 1; MLoad 2]].
+Definition ex2_sched : list nat :=
+  repeat 0%nat 2 ++ repeat 1%nat 9 ++ repeat 0%nat 8 ++ repeat 2%nat 20 ++ repeat 3%nat 20 ++ repeat 4%nat 12.
+
+Example lazymap_ext_example :
+  quiescent (run true ex2_progs ex2_sched) = true /\
+  history true ex2_progs ex2_sched =
+    [ mkop 2 9 (Spec.LoadOrStoreLazy 1 20 0) (Spec.RLazy 20 false 1);
+      mkop 0 17 (Spec.LoadOrStoreLazy 1 10 0) (Spec.RLazy 20 true 0);
+      mkop 19 23 (Spec.LoadOrStore 1 7 0) (Spec.RLoS 20 true);
+      mkop 24 31 (Spec.LoadOrStore 2 5 0) (Spec.RLoS 5 false);
+      mkop 39 49 (Spec.Delete 1) (Spec.RBool true);
+      mkop 50 51 (Spec.Delete 1) (Spec.RBool false);
+      mkop 59 60 (Spec.Load 1) (Spec.RGet 0 false);
+      mkop 61 64 (Spec.Load 2) (Spec.RGet 5 true) ] /\
+  Check.map_lin_check [] (history true ex2_progs ex2_sched) = true /\
+  linearizable fmap mop mres fmap_step [] (history true ex2_progs ex2_sched) /\
+  absmap (hp (run true ex2_progs ex2_sched)) = [(2, 5)].
+Proof.
+  split; [vm_compute; reflexivity|]. split; [vm_compute; reflexivity|]. split; [vm_compute; reflexivity|].
+  split; [apply lazymap_linearizable; vm_compute; reflexivity|vm_compute; reflexivity].
+Qed.
+
 Print Assumptions lazymap_lin_to.
 Print Assumptions lazymap_points.
 Print Assumptions lazymap_linearizable_nonvacuous.
+Print Assumptions lazymap_lazy_once.
+Print Assumptions lazymap_ext_example.
